@@ -11,6 +11,7 @@ RULE = ('(n_theta,n_r) in {(8,6),(9,7)} x spline bases (uniform-cubic fast path,
         'and an independent float de Boor evaluation; the feet arrays the object exposes are compared as well as f; nodes whose first- or second-stage foot '
         'lies within 1e-9*(rMax-rMin) of a radial boundary are skipped (counted); identities: constant potential = identity, omega*r^2/2 = rigid rotation by '
         'omega*dt/B0, explicit vs implicit feet differ by O(dt^3) on interior nodes (ratio >= 6 under halving), implicit iteration terminates (watchdog); '
+        'grid-level clause: gridStep / gridStep_SplinesUnchanged sequences (potential replaced in between, phi grid poisoned after the splines were taken) on 6 (quick) / 30 (thorough) process grids against per-plane serial step() with the spline of the global z plane; '
         'an evaluation is one step() call; non-trivial = non-constant potential and dt != 0')
 ASSUMPTIONS = ['pgv.refspline', 'explicit scheme tolerance 1e-11 (relative to max|f| and the local gradient); implicit scheme compared within 100*tol of the converged reference',
                'termination is decided by a 20 s alarm per implicit step (a terminating step takes < 1 s)']
@@ -31,7 +32,83 @@ def cases(tier, seed):
         out.append({'kind': 'order', 'nq': 8, 'nr': 6, 'basis': basis, 'cost': 100})
         for amp, dt in ((0.01, 0.7), (0.03, 0.7), (0.1, 0.7), (0.1, 2.0), (0.3, 0.7)):
             out.append({'kind': 'terminate', 'nq': 8, 'nr': 6, 'basis': basis, 'amp': amp, 'dt': dt, 'cost': 100, 'timeout': 120})
+    # grid-level clause: every (v, z) plane is advected with the spline of the potential on the SAME global z plane, also when the
+    # splines are reused (gridStep_SplinesUnchanged) and after the potential has changed
+    grids = [[1, 1], [2, 1], [1, 2], [2, 2], [1, 3], [3, 2]] if tier == 'quick' else [[a, b] for a in range(1, 6) for b in range(1, 8) if a * b <= 12]
+    for g in grids:
+        for expl in (True, False):
+            out.append({'kind': 'grid', 'npts': [6, 8, 7, 5], 'grid': g, 'explicit': expl, 'cost': 150 * g[0] * g[1]})
     return out
+
+
+def _grid_case(case):
+    import numpy as np
+    from pgv import sim
+    from checks import c05
+    MPI = sim.setup()
+    from pygyro.initialisation.setups import setupCylindricalGrid
+    from pygyro.model.layout import LayoutSwapper
+    from pygyro.model.grid import Grid
+    from pygyro.advection.advection import PoloidalAdvection
+    from pygyro.splines.splines import Spline2D
+    from pygyro.splines.spline_interpolators import SplineInterpolator2D
+    npts = case['npts']
+    nprocs = case['grid']
+    PHI = [0.2 * c05._phi_global(npts), 0.2 * c05._phi_global(npts)[:, ::-1, ::-1] * 0.7 + 0.01]
+
+    def close(a, b):
+        return a.shape == b.shape and sim.maxrel(a, b) <= 1e-13
+
+    def fn(r):
+        comm = MPI.COMM_WORLD
+        viol = []
+        f, c, t = setupCylindricalGrid(layout='poloidal', npts=list(npts), comm=comm, iotaVal=0.8, eps=0.1, m=3, n=-2, vMin=-6.1, **c05.GEN)
+        eta = f.eta_grid
+        lpo = f.getLayout('poloidal')
+        gi = sim.global_index_arrays(lpo)
+        f.getAllData()[:] *= 1 + 0.3 * np.sin(1.0 + gi[0] * 1.3 + gi[1] * 0.7 + gi[2] * 2.1 + gi[3] * 0.9)
+        spl = [f.getSpline(k) for k in range(4)]
+        lp = {'v_parallel_2d': [0, 2, 1], 'mode_solve': [1, 2, 0]}
+        rphi = LayoutSwapper(comm, [lp, {'v_parallel_1d': [0, 2, 1]}, {'poloidal': [2, 1, 0]}], [nprocs, nprocs[0], nprocs[1]], eta[:3], 'poloidal')
+        phi = Grid(eta[:3], f.getSpline(slice(0, 3)), rphi, 'poloidal', comm, dtype=np.complex128)
+        l3 = phi.getLayout('poloidal')
+        polAdv = PoloidalAdvection(eta, [spl[1], spl[0]], c, explicitTrap=case['explicit'], tol=1e-12)
+        polS = PoloidalAdvection(eta, [spl[1], spl[0]], c, explicitTrap=case['explicit'], tol=1e-12)
+        itp2 = SplineInterpolator2D(spl[1], spl[0])
+        n = 0
+        # (operation, potential in force, dt)
+        for op, k, dt in (('gridStep', 0, 0.7), ('gridStep_SplinesUnchanged', 0, -0.3), ('gridStep', 1, 0.4), ('gridStep_SplinesUnchanged', 1, 0.5),
+                          ('gridStep_SplinesUnchanged', 1, -0.2)):
+            before = f.getAllData().copy()
+            if op == 'gridStep':
+                phi.getAllData()[:] = np.transpose(PHI[k], l3.dims_order)[tuple(slice(int(a), int(b)) for a, b in zip(l3.starts, l3.ends))]
+                polAdv.gridStep(f, phi, dt)
+                phi.getAllData()[:] = np.nan          # the splines were taken; the grid may change afterwards
+            else:
+                polAdv.gridStep_SplinesUnchanged(f, dt)
+            ok = True
+            for j in range(before.shape[1]):
+                J = int(lpo.starts[1]) + j
+                sp = Spline2D(spl[1], spl[0])
+                itp2.compute_interpolant(np.ascontiguousarray(PHI[k][:, :, J].T), sp)   # (theta, r)
+                for i in range(before.shape[0]):
+                    v = eta[3][int(lpo.starts[0]) + i]
+                    e = before[i, j].copy()
+                    polS.step(e, dt, sp, v)
+                    ok = ok and close(f.getAllData()[i, j], e)
+                    n += 1
+            if not ok:
+                viol.append('grid-level:%s:plane-not-advected-with-potential-of-its-global-z' % op)
+        return n, viol
+    res, _w = sim.run_world(nprocs, fn)
+    viols = {}
+    evals = 0
+    for rk, (n, vl) in enumerate(res):
+        evals += n
+        for v in vl:
+            viols.setdefault(v, {'sig': v, 'what': '%s on rank %d (npts %r process grid %r %s scheme)' % (
+                v, rk, npts, nprocs, 'explicit' if case['explicit'] else 'implicit'), 'detail': {}})
+    return viols, evals, evals if nprocs[0] * nprocs[1] > 1 else 0, 0, 0.0
 
 
 def _setup(case):
@@ -361,6 +438,8 @@ def run_case(case):
         viols, evals, nontriv, skipped, worst = _run_step(case)
     elif case['kind'] == 'order':
         viols, evals, nontriv, skipped, worst = _order(case)
+    elif case['kind'] == 'grid':
+        viols, evals, nontriv, skipped, worst = _grid_case(case)
     else:
         viols, evals, nontriv, skipped, worst = _terminate(case)
     return {'evals': evals, 'nontrivial': nontriv, 'violations': list(viols.values()),
